@@ -43,6 +43,23 @@ def l1(*insts):
     return f
 
 
+def sort_cases(nq=4000, nt=None):
+    def cases(tier, seed):
+        t = 1 if tier == "quick" else 2
+        cs = families.sample(families.export_family("sort", t, module="Gen_Sort"), nq if tier == "quick" else nt, seed)
+        return [dict(c, kind="sort") for c in cs]
+    return cases
+
+
+def both(*fs):
+    def cases(tier, seed):
+        out = []
+        for f in fs:
+            out += f(tier, seed)
+        return out
+    return cases
+
+
 NOFAC = dict(facilities=False, components=False)
 FULL = dict()
 
@@ -59,7 +76,7 @@ PLANS = {
     "C04": dict(cases=step_cases(["alloc", "place"], FULL),
                 l1=l1(dict(family="alloc", invariants=["Inv_C04"], properties=["Prop_C04"]),
                       dict(family="place", invariants=["Inv_C04"], properties=["Prop_C04"]))),
-    "C05": dict(cases=step_cases(["deps", "abs"], NOFAC),
+    "C05": dict(cases=step_cases(["deps", "abs", "place"], FULL),
                 l1=l1(dict(family="deps", invariants=["Inv_C05"], properties=["Live_C05"]),
                       dict(family="abs", invariants=["Inv_C05"]))),
     "C06": dict(cases=step_cases(["deps", "alloc"], FULL),
@@ -72,23 +89,27 @@ PLANS = {
                 l1=l1(dict(family="abs", invariants=["Inv_C08"]))),
     "C10": dict(cases=step_cases(["abs"], FULL),
                 l1=l1(dict(family="abs", invariants=["Inv_C10"], properties=["Prop_C10"]))),
+    "C11": dict(cases=both(sort_cases(), step_cases(["alloc"], FULL, nq=400, rq=300)),
+                l1=l1(dict(family="alloc", properties=["Prop_C11"]))),
     "C12": dict(cases=step_cases(["pert"], dict(facilities=False, components=False, kinds=["FS"])),
                 l1=l1(dict(family="pert", invariants=["Inv_C12"]))),
     "C13": dict(cases=step_cases(["place"], FULL),
-                l1=l1(dict(family="place", invariants=["Inv_C13"], properties=["Prop_C13"]))),
+                l1=l1(dict(family="placeflat", invariants=["Inv_C13"], properties=["Prop_C13"]))),
     "C14": dict(cases=step_cases(["place", "deps"], FULL),
                 l1=l1(dict(family="place", invariants=["Inv_C14"], properties=["Prop_C14"]))),
 }
 
 
 # properties that have a plan but are not claimed in MANIFEST.json yet
-UNREGISTERED = {"C13"}
+UNREGISTERED = set()
 
 
 # ---- evidence helpers -------------------------------------------------------------------
 def _sig(case):
     """A case is counted once per distinct behaviour: the sequence of task-state vectors."""
     r = case["runs"][0]
+    if r.get("op") == "sort":
+        return json.dumps([r["fn"], r["mode"], r["out"], r["vals"], case["cfg"]["workers"], case["cfg"]["facs"]])
     return json.dumps([e["st"]["ts"] for e in r.get("ev", []) if e["ph"] == "recorded"]
                       + [r.get("ret")]) + json.dumps(case["cfg"]["deps"])
 
@@ -99,6 +120,10 @@ def nontrivial(prop, recs):
     sigs = set()
     for c in recs:
         r = c["runs"][0]
+        if r.get("op") == "sort":
+            if len(set(r["out"])) >= 2 and r["out"] != r["inp"]:
+                sigs.add(_sig(c))
+            continue
         steps = [e for e in r.get("ev", []) if e["ph"] == "recorded"]
         if len(steps) >= 2 and any("WORKING" in e["st"]["ts"] for e in steps):
             sigs.add(_sig(c))
@@ -113,6 +138,9 @@ def samples(prop, recs, n=2):
     out = []
     for c in recs[:n]:
         r = c["runs"][0]
+        if r.get("op") == "sort":
+            out.append({k: r[k] for k in ("fn", "mode", "t", "p", "vals", "inp", "out", "ret")})
+            continue
         out.append({"cfg": c["cfg"], "ret": r.get("ret"),
                     "task_state_log": r["final"]["lg"]["ts"], "events": len(r.get("ev", []))})
     return out
